@@ -52,3 +52,16 @@ Theorem C04_running_holds_marker : forall g p sched v j pre fc uid,
   ph (wst s v) = Running j pre fc uid -> started (nst s j) = Some v.
 Proof. exact running_holds_marker. Qed.
 Print Assumptions C04_running_holds_marker.
+
+(* the reuse scope narrowed to one swarm: the same bound for the workers of each swarm separately *)
+Theorem C04_mutual_exclusion_per_swarm : forall g p sched i sw,
+  gwf_b g = true -> n_flat (nd g i) = false -> n_scope (nd g i) = PerSwarm ->
+  let s := fst (run_schedule g (init_state g p) sched) in
+  length (runners_of g sw s (class_of g i)) <= tmax g s (class_of g i).
+Proof. exact mutual_exclusion_swarm. Qed.
+Print Assumptions C04_mutual_exclusion_per_swarm.
+
+(* ... and narrowed to one worker: a worker awaits at most one test at a time, in every state *)
+Theorem C04_one_test_per_worker : forall s C w, length (filter (Nat.eqb w) (runners s C)) <= 1.
+Proof. exact runners_one_worker. Qed.
+Print Assumptions C04_one_test_per_worker.
